@@ -844,12 +844,9 @@ def run_obligation(body, base, describe, replay, twin=False, timeout=120):
             reached = {}
 
             def tbody():
-                body()
-                # end reached on this path: any model of the path condition is a witness
-                if ex.check() == z3.sat:
-                    reached["m"] = ex.solver.model()
-                    return z3.BoolVal(True)
-                return None
+                v = body()
+                # end reached on this path: a model of the path condition on which the assertion HOLDS is the witness
+                return z3.BoolVal(True) if v is None else z3.Not(v)
             res = ex.explore(tbody, base)
             if res:
                 cex = describe(res[0])
